@@ -478,6 +478,7 @@ def oracle_faults(case, result):
     if result['init'].get('mirror0'):
         yield 'C06', -1, 'after the initial load the consumer is not a mirror'
     frozen = False
+    cur_seq = init['seq']                  # the SequenceId the consumer mdib currently follows
     for n, (op, st) in enumerate(zip(case['ops'], result['trace'])):
         publish(st['prov'], True)
         c = st['cons']
@@ -492,6 +493,8 @@ def oracle_faults(case, result):
             frozen = False
             ct = Tables({'ver': c['ver'], 'descrs': [], 'states': [], 'cstates': []})
             ct.apply(c)      # after a reload the tables are simply what the delta says relative to before
+            if c.get('seqinst'):
+                cur_seq = c['seqinst'][0]
             continue
         if c['index_problems']:
             yield 'C06', n, 'consumer lookups inconsistent: ' + c['index_problems'][0]
@@ -513,6 +516,5 @@ def oracle_faults(case, result):
             frozen = True
         # a delivered report with a foreign sequence / instance id must invalidate an initialised consumer
         for r in st.get('delivered', []):
-            if r.get('seq') is not None and r.get('seq') != init['seq'] and st.get('cmode') == 'initialized' \
-                    and not reloaded and not case.get('_reloaded_before', False):
+            if r.get('seq') is not None and r.get('seq') != cur_seq and st.get('cmode') == 'initialized':
                 yield 'C06', n, 'a report with a different SequenceId was delivered but the consumer is still "initialized"'
